@@ -5028,7 +5028,11 @@ class PyCdlib:
 
             (udf_name, udf_parent) = self._udf_name_and_parent_from_path(udf_path_bytes)
 
-            num_extents_to_remove = udf_parent.remove_file_ident_desc_by_name(udf_name,
+            # The File Identifier is recorded in latin-1 or UCS-2, not in the
+            # UTF-8 of the path, so look up the identifier as recorded.
+            udf_ident = udf_parent.find_file_ident_desc_by_name(udf_name)
+
+            num_extents_to_remove = udf_parent.remove_file_ident_desc_by_name(udf_ident.fi,
                                                                               self.logical_block_size)
             # Remove space (if necessary) in the parent File Identifier
             # Descriptor area.
